@@ -2115,10 +2115,10 @@ var networkaccessserverXML = `<?xml version="1.0" encoding="UTF-8"?>
 			<data type="OctetString"/>
 		</avp>
 
-		<!--avp name="QoS-Filter-Rule" code="407" must="-" may="" must-not="-" may-encrypt="Y"-->
+		<avp name="QoS-Filter-Rule" code="407" must="-" may="" must-not="-" may-encrypt="Y">
 			<!-- http://tools.ietf.org/html/rfc7155#section-4.4.9 -->
-			<!--data type="QoSFilterRule"/-->
-		<!--/avp-->
+			<data type="QoSFilterRule"/>
+		</avp>
 
 
 		<avp name="Framed-Protocol" code="7" must="M" may="-" must-not="V" may-encrypt="Y">
